@@ -36,6 +36,10 @@ def ensure_deps():
 def worker_env(extra=None):
     env = dict(os.environ)
     env['PYTHONPATH'] = VERIF + os.pathsep + os.path.join(VERIF, '.deps')
+    repo = os.environ.get('PV_REPO')
+    if repo and os.path.abspath(repo) != '/repo':
+        # scratch worktree for deliberate-break trials: shadows the editable install
+        env['PYTHONPATH'] = os.path.abspath(repo) + os.pathsep + env['PYTHONPATH']
     env['PYTHONHASHSEED'] = '0'
     env['PYTHONDONTWRITEBYTECODE'] = '1'
     env.setdefault('OMP_NUM_THREADS', '1')
@@ -48,11 +52,22 @@ def worker_env(extra=None):
 
 
 def load_known():
-    path = os.path.join(VERIF, 'known_findings.json')
-    if not os.path.exists(path):
-        return {'findings': [], 'fixed': []}
-    with open(path) as f:
-        return json.load(f)
+    import glob
+    out = {'findings': [], 'fixed': []}
+    paths = [os.path.join(VERIF, 'known_findings.json')]
+    paths += sorted(glob.glob(os.path.join(VERIF, 'known_findings.d', '*.json')))
+    for path in paths:
+        if not os.path.exists(path):
+            continue
+        with open(path) as f:
+            d = json.load(f)
+        out['findings'] += d.get('findings', [])
+        out['fixed'] += d.get('fixed', [])
+    return out
+
+
+def repo_root():
+    return os.path.abspath(os.environ.get('PV_REPO') or '/repo')
 
 
 def match_known(pid, viol, known):
